@@ -91,13 +91,8 @@ theorem msgHeaders_layout (b : Buf) (o : Nat) (m : PSIPMsg) (flags : Nat) (hfit 
     have hR := hS.2.2.2.1 (Or.inl rfl)
     simp only at hR
     have hl := msgBody_layout b o1 _ flags hR.2 hfit (by show m.offs ≤ o1; omega) hr
-    have hT := msgBody_T b o1 { m with hl := hl1, pv := hb1.getD m.pv, state := .body } flags
-      ⟨H.pnc, H.fl, hS.1, (by
-        cases hb1 with
-        | none => exact H.pv
-        | some v => exact hS.2.1 v rfl), H.body⟩ hR.2 (by show m.offs ≤ o1; omega) rfl
-    rw [hr] at hT
-    exact ⟨o1, hR.1, hT.ge (Or.inl rfl), rfl, rfl, hl⟩
+    have hle : o1 ≤ o' := by have h1 := hl.bodyOffs; have h2 := hl.bodyEnd; omega
+    exact ⟨o1, hR.1, hle, rfl, rfl, hl⟩
   · exfalso
     have : (msgErr { m with hl := hl1, pv := hb1.getD m.pv } o1 e1 flags).2.1 ≠ .ok := msgErr_not_ok _ _ _ _ he
     cases e1 <;> first | exact absurd rfl he | (simp only at hr; rw [hr] at this; exact this rfl)
@@ -122,7 +117,8 @@ theorem msgFLine_layout (b : Buf) (o : Nat) (m : PSIPMsg) (flags : Nat) (hfit : 
     obtain ⟨h, h1, h2, _, _, h3⟩ := msgHeaders_layout b o1 { m with fl := fl1, state := .headers } flags hfit rfl
       ⟨hF.ho, (fun hh => by rcases hh with hh | hh <;> cases hh), fun _ => ⟨hls, hvOK_mono hvs hge hF.ho, hpe⟩⟩
       ⟨⟨H.pnc, hF.mono hF.ho (Nat.le_refl _), H.hl, H.pv, H.body⟩, hF.ho, (fun _ => by show m.offs ≤ o1; omega),
-        (fun hh => by rcases hh with hh | hh <;> cases hh), (fun _ => hHls)⟩ hr
+        (fun hh => by rcases hh with hh | hh <;> cases hh), (fun _ => hHls),
+        ⟨hF, H.inn.hl.mono hge, H.inn.pv.mono hge hF.ho⟩⟩ hr
     exact ⟨h, by omega, h2, h3⟩
   · exfalso
     have : (msgErr { m with fl := fl1 } o1 e1 flags).2.1 ≠ .ok := msgErr_not_ok _ _ _ _ he
@@ -145,7 +141,7 @@ theorem parseSIPMsg_layout (b : Buf) (o : Nat) (m : PSIPMsg) (flags : Nat) (hfit
     obtain ⟨h, h1, h2, h3⟩ := msgFLine_layout b o { m with offs := o, state := .fline } flags hfit rfl
       ⟨hok.1, fun _ => hok.2.1 (Or.inl hst), fun _ => hok.2.2 (by rw [hst]; decide)⟩
       ⟨⟨H.pnc, H.fl, H.hl, H.pv, H.body⟩, H.ho, (fun _ => Nat.le_refl _), (fun _ => H.flS (Or.inl hst)),
-        (fun _ => H.hls (Or.inl hst))⟩ hr'
+        (fun _ => H.hls (Or.inl hst)), ⟨H.inn.fl, H.inn.hl, H.inn.pv⟩⟩ hr'
     exact ⟨h, h1, h2, hle, h3⟩
   case fline =>
     rw [parseSIPMsg_fline b o m flags hst] at hr
